@@ -242,6 +242,7 @@ def strncpy_macro(hdr):
     rest = body[:c.start()] + body[c.end():]
     if t:
         rest = rest.replace(t.group(0), "")
+    rest = re.sub(r"\(\s*void\s*\)\s*0", "", rest)      # a no-op statement left where a store used to be (tools/automut_c.py del-nul)
     if re.sub(r"[\s;]", "", rest):
         raise NotRecognised("PSUTIL_STRNCPY has statements that are not understood: %r" % rest.strip())
     return int(c.group(1) or 0), (int(t.group(1) or 0) if t else 0), bool(t)
